@@ -147,6 +147,12 @@ def r4_peer_exchange_wiring(cx):
         src = iter_source(cni, li)
         if src is not None and place_is_field(src, "GenericCloud", "peers"):
             ok = not li.other_exits and bool(li.exhaust_exits)
+    if not ok:
+        # internal iteration: self.peers.values().map(|peer| PeerInfo { .. }).collect()
+        from ..mirutil import adapter_closures
+        for (cb, adapter, src, short, complete) in adapter_closures(prog, cni):
+            if adapter == "map" and not short and complete and src is not None and place_is_field(src, "GenericCloud", "peers"):
+                ok = True
     cx.check("node-info-lists-all-peers", ok, site_of(cni), "create_node_info sweeps the whole peer map (exhaustion exit only)")
     ags = [(b, bi, s) for (b, bi, s) in aggregates(prog, "NodeInfo") if b.did == cni.did]
     cx.exact("node-info-ctor", len(ags), 1, "NodeInfo constructions in create_node_info")
